@@ -1,0 +1,27 @@
+//go:build !verif
+
+// Package verifhook provides simulation seams for the deterministic-simulation
+// harness under /verif. Without the "verif" build tag every function is an
+// empty, inlinable no-op and shipped behaviour is unchanged.
+package verifhook
+
+// TryLocker is the subset of sync.Mutex / sync.RWMutex used by BeforeLock.
+type TryLocker interface {
+	TryLock() bool
+	Unlock()
+}
+
+// Yield marks a scheduling point owned by the simulator.
+func Yield(owner any, site string) {}
+
+// Event reports an observation to the simulator.
+func Event(owner any, site string, a, b int64) {}
+
+// BeforeLock lets a simulated task park instead of blocking on a contended lock.
+func BeforeLock(l TryLocker) {}
+
+// Enabled reports whether a simulation-only switch is set.
+func Enabled(flag string) bool { return false }
+
+// Int returns a simulation-only integer knob (0 = unset).
+func Int(flag string) int { return 0 }
